@@ -164,4 +164,35 @@ theorem replicate_takeWhile_dropWhile (a : Bytes) :
     exact this.symm
   rw [h, List.takeWhile_append_dropWhile]
 
+/-- Base58 round trip: decoding the encoding of a non-empty byte string returns it -/
+theorem decode_encode (a : Bytes) (h : a ≠ []) : decode (encode a) = some a := by
+  unfold decode encode
+  have hv : value? (List.replicate (leadingZeros a) (digitChar 0) ++ (digits (beVal a)).map digitChar) 0
+      = some (beVal a) := by
+    rw [value?_replicate_zero, value?_map _ (digits_lt _), ofDigits_digits]
+  rw [hv]
+  have htw : (List.takeWhile (fun x => x == digitChar 0)
+      (List.replicate (leadingZeros a) (digitChar 0) ++ (digits (beVal a)).map digitChar)).length
+      = leadingZeros a := by
+    rw [List.takeWhile_append_of_pos (by intro x hx; rw [List.eq_of_mem_replicate hx]; exact beq_self_eq_true _)]
+    have : List.takeWhile (fun x => x == digitChar 0) ((digits (beVal a)).map digitChar) = [] := by
+      cases hd : digits (beVal a) with
+      | nil => rfl
+      | cons d t =>
+        have hlt : d < 58 := digits_lt (beVal a) d (by rw [hd]; exact List.mem_cons_self)
+        have hne := digits_head_ne_zero (beVal a) d t hd
+        have := digitChar_ne_one ⟨d, hlt⟩ hne
+        simp only [List.map_cons]
+        rw [List.takeWhile_cons_of_neg (by simpa using this)]
+    rw [this]; simp
+  simp only [htw]
+  have hb : natBytes (beVal a) = a.dropWhile (· == 0) := natBytes_leVal_reverse a
+  rw [hb]
+  have hres : List.replicate (leadingZeros a) (0 : UInt8) ++ a.dropWhile (· == 0) = a :=
+    replicate_takeWhile_dropWhile a
+  rw [hres]
+  cases a with
+  | nil => exact absurd rfl h
+  | cons x t => rfl
+
 end GocoinV.Base58
